@@ -1252,6 +1252,429 @@ theorem nnLine_sound_partial4 {y : YearDecl} {S : SSet} {c : ClassDecl} {l : Lin
   nnLine_sound_partial3 h inst vs is fs
     { intToFloat := intToFloatNN, roundFact := h4.roundFact, fstr := h4.fstr, key := h4.key } ha hb v hrun
 
+/-! ## Round 5: `round`, and the key strings (`qualify`, the f-string pattern `prefix{…}suffix`, `keyIn`) -/
+
+theorem char_eq_dot (c : Char) : ('.' == c) = (46 == c.toNat) := by
+  by_cases h : c = '.'
+  · subst h; rfl
+  · have h1 : ('.' == c) = false := by
+      simp only [beq_eq_false_iff_ne, ne_eq]; exact fun h' => h h'.symm
+    have h2 : (46 == c.toNat) = false := by
+      simp only [beq_eq_false_iff_ne, ne_eq]
+      intro h'
+      apply h
+      rw [← Char.ofNat_toNat c, ← h']
+    rw [h1, h2]
+
+theorem contains_dot_list (l : List Char) : l.contains '.' = (l.map Char.toNat).contains 46 := by
+  induction l with
+  | nil => rfl
+  | cons c t ih => rw [List.map_cons, List.contains_cons, List.contains_cons, ih, char_eq_dot]
+
+theorem contains_dot (s : String) : s.toList.contains '.' = (nats s).contains 46 :=
+  contains_dot_list s.toList
+
+theorem nats_append (a b : String) : nats (a ++ b) = nats a ++ nats b := by
+  unfold nats; rw [String.toList_append, List.map_append]
+
+theorem takeWhile_stop {p : Nat → Bool} : ∀ (l r : List Nat) (y : Nat), (∀ x, x ∈ l → p x = true) → p y = false →
+    (l ++ y :: r).takeWhile p = l := by
+  intro l
+  induction l with
+  | nil => intro r y _ hy; simp [List.takeWhile_cons, hy]
+  | cons a t ih =>
+    intro r y hl hy
+    rw [List.cons_append, List.takeWhile_cons, hl a List.mem_cons_self]
+    simp only [if_true]
+    rw [ih r y (fun x hx => hl x (List.mem_cons_of_mem _ hx)) hy]
+
+theorem takeWhile_any {p : Nat → Bool} : ∀ (l r : List Nat), (∃ x, x ∈ l ∧ p x = false) →
+    (l ++ r).takeWhile p = l.takeWhile p := by
+  intro l
+  induction l with
+  | nil => intro r h; obtain ⟨x, hx, _⟩ := h; cases hx
+  | cons a t ih =>
+    intro r h
+    rw [List.cons_append, List.takeWhile_cons, List.takeWhile_cons]
+    cases hpa : p a with
+    | false => simp
+    | true =>
+      simp only [if_true]
+      obtain ⟨x, hx, hpx⟩ := h
+      rcases List.mem_cons.1 hx with h1 | h1
+      · subst h1; rw [hpa] at hpx; cases hpx
+      · rw [ih r ⟨x, h1, hpx⟩]
+
+theorem not_contains_all {ns : List Nat} (h : ns.contains 46 = false) : ∀ x, x ∈ ns → (x != 46) = true := by
+  intro x hx
+  cases hb : (x != 46) with
+  | true => rfl
+  | false =>
+    exfalso
+    have hx46 : x = 46 := by simpa using hb
+    subst hx46
+    have : List.contains ns 46 = true := List.contains_iff_mem.2 hx
+    rw [this] at h; cases h
+
+/-- line part of `X.s` when `s` has no dot -/
+theorem lineNats_rel (X ns : List Nat) (h : ns.contains 46 = false) : lineNats (X ++ 46 :: ns) = ns := by
+  unfold lineNats
+  have e : (X ++ 46 :: ns).reverse = ns.reverse ++ 46 :: X.reverse := by
+    rw [List.reverse_append, List.reverse_cons, List.append_assoc]; rfl
+  rw [e, takeWhile_stop ns.reverse X.reverse 46
+    (fun x hx => not_contains_all h x (List.mem_reverse.1 hx)) (by decide), List.reverse_reverse]
+
+/-- class part of `form<stop>…` when `form` has no stop -/
+theorem clsNats_rel (F r : List Nat) (y : Nat) (hF : F.all (fun n => !isStop n) = true) (hy : isStop y = true) :
+    clsNats (F ++ y :: r) = F := by
+  unfold clsNats
+  rw [List.all_eq_true] at hF
+  exact takeWhile_stop F r y hF (by rw [hy]; rfl)
+
+theorem clsNats_prefix (l r : List Nat) (h : l.any isStop = true) : clsNats (l ++ r) = clsNats l := by
+  unfold clsNats
+  obtain ⟨x, hx, hs⟩ := List.any_eq_true.1 h
+  exact takeWhile_any l r ⟨x, hx, by rw [hs]; rfl⟩
+
+theorem lineNats_suffix (l r : List Nat) (h : r.contains 46 = true) : lineNats (l ++ r) = lineNats r := by
+  unfold lineNats
+  rw [List.reverse_append]
+  have hm : (46 : Nat) ∈ r := List.contains_iff_mem.1 h
+  rw [takeWhile_any r.reverse l.reverse ⟨46, List.mem_reverse.2 hm, by decide⟩]
+
+theorem nats_dot : nats "." = [46] := by decide
+theorem nats_colon : nats ":" = [58] := by decide
+
+theorem nats_formKey (form : String) (inst : Option String) (s : String) :
+    ∃ y r, isStop y = true ∧ nats (formName form inst ++ "." ++ s) = nats form ++ y :: r ∧
+      ∃ X, nats (formName form inst ++ "." ++ s) = X ++ 46 :: nats s := by
+  cases inst with
+  | none =>
+    refine ⟨46, nats s, by decide, ?_, nats form, ?_⟩ <;>
+      simp only [formName, nats_append, nats_dot, nats_colon, List.append_assoc, List.singleton_append,
+        List.cons_append, List.nil_append]
+  | some i =>
+    refine ⟨58, nats i ++ 46 :: nats s, by decide, ?_, nats form ++ 58 :: nats i, ?_⟩ <;>
+      simp only [formName, nats_append, nats_dot, nats_colon, List.append_assoc, List.singleton_append,
+        List.cons_append, List.nil_append]
+
+theorem qualify_str (ctx : Ctx) (s n : String) (h : qualify ctx (.str s) = .ok n) :
+    n = if s.toList.contains '.' = true then s else formName ctx.form ctx.inst ++ "." ++ s := by
+  injection h with h; exact h.symm
+
+theorem nn_numNN_or_any {b : Bool} (h : (if b = true then SVal.numNN else SVal.any).nn = true) : b = true := by
+  cases b with
+  | true => rfl
+  | false => cases h
+
+theorem key_sound {K : SCtx} {ctx : Ctx} (hform : (nats ctx.form).all (fun n => !isStop n) = true)
+    (hcode : K.clsCode = code (nats ctx.form)) :
+    ∀ (k : Val) (a : SVal) (n : String), Approx k a → qualify ctx k = .ok n → (readKey K a).nn = true →
+      keyIn K.S n = true := by
+  intro k a n hk hq hnn
+  unfold readKey at hnn
+  rw [hk.nb] at hnn
+  simp only [Bool.false_eq_true, if_false] at hnn
+  cases hkn : a.known with
+  | some c =>
+    rw [hkn] at hnn
+    have hc := hk.known c hkn
+    subst hc
+    cases k with
+    | str s =>
+      dsimp only at hnn
+      have hn := qualify_str ctx s n hq
+      rw [contains_dot] at hn
+      cases hdot : (nats s).contains 46 with
+      | true =>
+        rw [hdot] at hnn hn
+        simp only [if_true] at hnn hn
+        subst hn
+        exact nn_numNN_or_any hnn
+      | false =>
+        rw [hdot] at hnn hn
+        simp only [Bool.false_eq_true, if_false] at hnn hn
+        subst hn
+        have hhas := nn_numNN_or_any hnn
+        obtain ⟨y, r, hy, e1, X, e2⟩ := nats_formKey ctx.form ctx.inst s
+        unfold keyIn
+        have c1 : clsNats (nats (formName ctx.form ctx.inst ++ "." ++ s)) = nats ctx.form := by
+          rw [e1]; exact clsNats_rel _ _ _ hform hy
+        have c2 : lineNats (nats (formName ctx.form ctx.inst ++ "." ++ s)) = nats s := by
+          rw [e2]; exact lineNats_rel _ _ hdot
+        rw [c1, c2, ← hcode]; exact hhas
+    | none => cases hnn
+    | bool b => cases hnn
+    | int i => cases hnn
+    | float x => cases hnn
+    | enumv e m => cases hnn
+    | tuple xs => cases hnn
+    | list xs => cases hnn
+    | dict ks vs => cases hnn
+  | none =>
+    rw [hkn] at hnn
+    dsimp only at hnn
+    cases hkk : a.key with
+    | none => rw [hkk] at hnn; cases hnn
+    | some cl =>
+      rw [hkk] at hnn
+      dsimp only at hnn
+      have hhas := nn_numNN_or_any hnn
+      obtain ⟨s, hs, hdot, h1, h2⟩ := hk.key cl hkk
+      subst hs
+      have hn := qualify_str ctx s n hq
+      rw [contains_dot, hdot] at hn
+      simp only [if_true] at hn
+      subst hn
+      unfold keyIn
+      rw [h1, h2]; exact hhas
+
+
+theorem nats_empty : nats "" = [] := by decide
+
+theorem fmtAll_cons {v : Val} {vs : List Val} {s : String} (h : fmtAll (v :: vs) = .ok s) :
+    ∃ s1 rest, Val.pyStr v = .ok s1 ∧ fmtAll vs = .ok rest ∧ s = s1 ++ rest := by
+  obtain ⟨s1, e1, r1⟩ := bind_ok (show (Val.pyStr v >>= fun s => fmtAll vs >>= fun rest => pure (s ++ rest)) = .ok s from h)
+  obtain ⟨rest, e2, r2⟩ := bind_ok r1
+  exact ⟨s1, rest, e1, e2, by injection r2 with r2; exact r2.symm⟩
+
+theorem fstr3 {p q s : String} {v2 : Val} (h : fmtAll [.str p, v2, .str q] = .ok s) :
+    ∃ s2, nats s = nats p ++ (nats s2 ++ nats q) := by
+  obtain ⟨s1, r1, e1, f1, rfl⟩ := fmtAll_cons h
+  obtain ⟨s2, r2, e2, f2, rfl⟩ := fmtAll_cons f1
+  obtain ⟨s3, r3, e3, f3, rfl⟩ := fmtAll_cons f2
+  have h1 : p = s1 := by injection e1
+  have h3 : q = s3 := by injection e3
+  have h4 : "" = r3 := by injection f3
+  subst h1; subst h3; subst h4
+  exact ⟨s2, by simp only [nats_append, nats_empty, List.append_nil]⟩
+
+theorem fstr_sound : ∀ (vs : List Val) (as : List SVal) (s : String), List.Forall₂ Approx vs as →
+    fmtAll vs = .ok s → ∀ cl, fstrKey as = some cl → IsKey (.str s) cl := by
+  intro vs as s hvs hs cl hk
+  cases hvs with
+  | nil => cases hk
+  | @cons v1 a vs1 as1 h1 t1 =>
+    cases t1 with
+    | nil => cases hk
+    | @cons v2 b vs2 as2 h2 t2 =>
+      cases t2 with
+      | nil => cases hk
+      | @cons v3 c vs3 as3 h3 t3 =>
+        cases t3 with
+        | cons h4 t4 => cases hk
+        | nil =>
+          unfold fstrKey at hk
+          dsimp only at hk
+          cases hka : a.known with
+          | none => rw [hka] at hk; cases hk
+          | some ca =>
+            rw [hka] at hk
+            have e1 := h1.known ca hka
+            cases ca with
+            | str p =>
+              dsimp only at hk
+              cases hkc : c.known with
+              | none => rw [hkc] at hk; cases hk
+              | some cc =>
+                rw [hkc] at hk
+                have e3 := h3.known cc hkc
+                cases cc with
+                | str q =>
+                  dsimp only at hk
+                  by_cases hcond : ((nats p).any isStop && (nats q).contains 46) = true
+                  · rw [if_pos hcond] at hk
+                    injection hk with hk
+                    subst hk
+                    simp only [Bool.and_eq_true] at hcond
+                    subst e1; subst e3
+                    obtain ⟨s2, hn⟩ := fstr3 hs
+                    refine ⟨s, rfl, ?_, ?_, ?_⟩
+                    · rw [hn, List.contains_append, List.contains_append, hcond.2]; simp
+                    · show code (clsNats (nats s)) = code (clsNats (nats p))
+                      rw [hn, clsNats_prefix _ _ hcond.1]
+                    · show code (lineNats (nats s)) = code (lineNats (nats q))
+                      rw [hn, ← List.append_assoc, lineNats_suffix _ _ hcond.2]
+                  · rw [if_neg hcond] at hk; cases hk
+                | none => cases hk
+                | bool b => cases hk
+                | int i => cases hk
+                | float x => cases hk
+                | enumv e m => cases hk
+                | tuple xs => cases hk
+                | list xs => cases hk
+                | dict ks vs => cases hk
+            | none => cases hk
+            | bool b => cases hk
+            | int i => cases hk
+            | float x => cases hk
+            | enumv e m => cases hk
+            | tuple xs => cases hk
+            | list xs => cases hk
+            | dict ks vs => cases hk
+
+
+/-- the two-argument `round(x, k)` once `k` is an index -/
+def pyRound2 (x : Val) (k : Int) : R Val :=
+  match x with
+  | .float f => if k ≥ 0 then .ok (.float (F64.roundN f k.toNat)) else Val.roundFloatNeg f (-k).toNat
+  | .int i => .ok (.int (if k ≥ 0 then i else Val.roundIntNeg i (-k).toNat))
+  | .bool b =>
+    let i : Int := if b then 1 else 0
+    .ok (.int (if k ≥ 0 then i else Val.roundIntNeg i (-k).toNat))
+  | _ => .error .typeError
+
+theorem pyRound_cases {x : Val} {rest : List Val} {r : Val} (h : Val.pyRound (x :: rest) = .ok r) :
+    Val.pyRound.pyRound1 x = .ok r ∨ ∃ k, pyRound2 x k = .ok r := by
+  cases rest with
+  | nil => exact Or.inl h
+  | cons n t =>
+    cases t with
+    | cons c t2 => cases n <;> cases h
+    | nil =>
+      cases n with
+      | none => exact Or.inl h
+      | bool b => exact Or.inr ⟨_, h⟩
+      | int i => exact Or.inr ⟨_, h⟩
+      | float y => cases h
+      | str s => cases h
+      | enumv e m => cases h
+      | tuple xs => cases h
+      | list xs => cases h
+      | dict ks vs => cases h
+
+theorem pyRound1_fact {x r : Val} (h : Val.pyRound.pyRound1 x = .ok r) :
+    r.isNum = true ∧ (x.NN = true → r.NN = true) := by
+  cases x with
+  | float f =>
+    obtain ⟨i, hi, hr⟩ := floatToInt_fact (show Val.floatToInt f (F64.roundInt f) = .ok r from h)
+    subst hr
+    exact ⟨rfl, fun hx => (NN_int _).2 (F64.roundInt_notNeg ((NN_float f).1 hx) hi)⟩
+  | int i => injection h with h; subst h; exact ⟨rfl, fun hx => hx⟩
+  | bool b => injection h with h; subst h; exact ⟨rfl, fun _ => by cases b <;> rfl⟩
+  | none => cases h
+  | str s => cases h
+  | enumv e m => cases h
+  | tuple xs => cases h
+  | list xs => cases h
+  | dict ks vs => cases h
+
+theorem roundIntNeg_nonneg {i : Int} (hi : 0 ≤ i) (k : Nat) : 0 ≤ Val.roundIntNeg i k := by
+  unfold Val.roundIntNeg
+  dsimp only
+  have : ¬ i < 0 := by omega
+  rw [if_neg this]
+  exact Int.natCast_nonneg _
+
+theorem isNeg_ofScaled_or (s : Bool) (N D : Nat) (h : s = false ∨ N = 0) :
+    F64.isNeg (F64.ofScaled s N D) = false := by
+  rcases h with h | h
+  · subst h; exact F64.isNeg_ofScaled_false _ _
+  · subst h; rw [F64.ofScaled_zero]; simp [F64.isNeg]
+
+theorem rneDiv_zero_mul (m X D P Q : Nat) (h : m = 0) : F64.rneDiv (m * X) D * P * Q = 0 := by
+  subst h; rw [Nat.zero_mul, F64.rneDiv_zero, Nat.zero_mul, Nat.zero_mul]
+
+theorem roundFloatNegTail {z : F64} {r : Val}
+    (h : (match z with
+      | .inf _ => (.error .overflowError : R Val)
+      | r => .ok (.float r)) = .ok r) : r = .float z := by
+  cases z with
+  | inf s' => cases h
+  | nan => injection h with h; exact h.symm
+  | finite n' m' e' => injection h with h; exact h.symm
+
+/-- `round(x, -k)` of a float (`Val.roundFloatNeg`): a number, not negative when `x` is not negative.  STILL ASSUMED:
+the proof (generalise the `ofScaled` term, `roundFloatNegTail`, `isNeg_ofScaled_or`, `rneDiv_zero_mul` above) is
+accepted by the elaborator but the KERNEL answers "deep recursion detected" on it (it normalises
+`… * 10^k * 2^1074` under the `match` of the model definition); splitting `Val.roundFloatNeg` model-side into a helper
+over the abstract rounded value (as was done for `Val.intToFloat`) removes the problem.  No shipped line calls
+`round` with a negative second argument. -/
+def RoundFloatNegFact : Prop :=
+  ∀ (f : F64) (k : Nat) (r : Val), Val.roundFloatNeg f k = .ok r →
+    r.isNum = true ∧ (F64.isNeg f = false → r.NN = true)
+
+theorem pyRound2_fact (hrf : RoundFloatNegFact) {x : Val} {k : Int} {r : Val} (h : pyRound2 x k = .ok r) :
+    r.isNum = true ∧ (x.NN = true → r.NN = true) := by
+  cases x with
+  | float f =>
+    have h' : (if k ≥ 0 then (.ok (.float (F64.roundN f k.toNat)) : R Val)
+      else Val.roundFloatNeg f (-k).toNat) = .ok r := h
+    by_cases hk : k ≥ 0
+    · rw [if_pos hk] at h'
+      injection h' with h'; subst h'
+      exact ⟨rfl, fun hx => (NN_float _).2 (F64.roundN_notNeg ((NN_float f).1 hx) _)⟩
+    · rw [if_neg hk] at h'
+      obtain ⟨p, q⟩ := hrf _ _ _ h'
+      exact ⟨p, fun hx => q ((NN_float f).1 hx)⟩
+  | int i =>
+    injection h with h; subst h
+    refine ⟨rfl, fun hx => (NN_int _).2 ?_⟩
+    have hi := (NN_int i).1 hx
+    by_cases hk : k ≥ 0
+    · rw [if_pos hk]; exact hi
+    · rw [if_neg hk]; exact roundIntNeg_nonneg hi _
+  | bool b =>
+    injection h with h; subst h
+    refine ⟨rfl, fun _ => (NN_int _).2 ?_⟩
+    have hi : (0 : Int) ≤ (if b = true then 1 else 0) := by cases b <;> decide
+    by_cases hk : k ≥ 0
+    · rw [if_pos hk]; exact hi
+    · rw [if_neg hk]; exact roundIntNeg_nonneg hi _
+  | none => cases h
+  | str s => cases h
+  | enumv e m => cases h
+  | tuple xs => cases h
+  | list xs => cases h
+  | dict ks vs => cases h
+
+theorem roundFact (hrf : RoundFloatNegFact) : RoundFact := by
+  intro x rest r h
+  rcases pyRound_cases h with h1 | ⟨k, h2⟩
+  · exact pyRound1_fact h1
+  · exact pyRound2_fact hrf h2
+
+
+theorem restFacts4_of (hrf : RoundFloatNegFact) {y : YearDecl} {S : SSet} {c : ClassDecl} {inst : Option String}
+    (hc : classOK c = true) :
+    RestFacts4 (mkK false y S c) { year := y, form := c.name, inst := inst, thresholds := c.thresholds } where
+  roundFact := roundFact hrf
+  fstr := fstr_sound
+  key := key_sound hc rfl
+
+/-- **Soundness of the sign analysis (the variant that treats `sum(...)` as unknown), round 5: ONE closed fact left,
+`RoundFloatNegFact` (`round(float, negative n)`; see there).**
+If `nnLine y S c l = true` then for every instance `inst` and all stores `vs is fs` such that
+(a) every input that evaluates is not negative (`Val.NN`: a float that is not `< 0.0`, an int `≥ 0`, any non-number) and
+(b) every stored value under a key `k` with `keyIn S k` (class = text before the first `:`/`.`, line = text after the
+last `.`, both looked up by `code` in `S`) is a not-negative NUMBER:
+whenever line `l` of class `c` evaluates to a value `v`, `v` is a not-negative number. -/
+theorem nnLine_sound_partial5 (hrf : RoundFloatNegFact) {y : YearDecl} {S : SSet} {c : ClassDecl} {l : LineDecl}
+    (h : nnLine y S c l = true) (inst : Option String)
+    (vs : String → Option Val) (is : String → InpRes Val) (fs : String → Bool)
+    (ha : ∀ k v, is k = .ok v → Val.NN v = true)
+    (hb : ∀ k v, vs k = some v → keyIn S k = true → Val.NN v = true ∧ Val.isNum v = true)
+    (v : Val) (hrun : run vs is fs (evalLine y c inst l) = .val v) :
+    Val.NN v = true ∧ Val.isNum v = true := by
+  have hc : classOK c = true := by
+    have h' := h
+    unfold nnLine nnLineWith at h'
+    simp only [Bool.and_eq_true] at h'
+    exact h'.1.2
+  exact nnLine_sound_partial4 h inst vs is fs (restFacts4_of hrf hc) ha hb v hrun
+
+/-- a closed set is self-supporting: every line of `S` only returns not-negative numbers as long as the stored
+values of the lines of `S` are not-negative numbers (the induction step of the lift to solver states) -/
+theorem closed_line_sound (hrf : RoundFloatNegFact) {y : YearDecl} {S : SSet} (hS : closedWith false y S = true)
+    {c : ClassDecl} (hcm : c ∈ y.classes) {l : LineDecl} (hl : l ∈ c.lines)
+    (hin : S.has (code (nats c.name)) (code (nats l.name)) = true) (inst : Option String)
+    (vs : String → Option Val) (is : String → InpRes Val) (fs : String → Bool)
+    (ha : ∀ k v, is k = .ok v → Val.NN v = true)
+    (hb : ∀ k v, vs k = some v → keyIn S k = true → Val.NN v = true ∧ Val.isNum v = true)
+    (v : Val) (hrun : run vs is fs (evalLine y c inst l) = .val v) :
+    Val.NN v = true ∧ Val.isNum v = true :=
+  nnLine_sound_partial5 hrf (closedWith_line hS hcm hl hin) inst vs is fs ha hb v hrun
+
 end HabuVerif.Sign
 
 section AxiomCheck2
@@ -1276,4 +1699,9 @@ open HabuVerif.Sign
 #print axioms nnLine_sound_partial3
 #print axioms intToFloatNN
 #print axioms nnLine_sound_partial4
+#print axioms roundFact
+#print axioms fstr_sound
+#print axioms key_sound
+#print axioms nnLine_sound_partial5
+#print axioms closed_line_sound
 end AxiomCheck2
